@@ -134,6 +134,10 @@ def handle (op : String) (j : Json) : Option (Except String Json) :=
     pure (match val.validate vote with
       | .ok _ => Json.str "ok"
       | .error e => rejJson e)
+  | "shape" => some do
+    -- the well-formedness predicates used as theorem hypotheses, validated against the real objects
+    let vote ← parseObj (← j.getObjVal? "vote")
+    pure (Json.mkObj [("hashable", toJson vote.hashable), ("wf", toJson vote.wf)])
   | "eliminate" => some do
     let val ← parseValidator (← j.getObjVal? "val")
     let a ← fromJson? (α := Array Json) (← j.getObjVal? "votes")
